@@ -2,6 +2,8 @@ import Model.Assign
 /-! Lemmas for C10: `partition_list`, `partition_indices`, `ClusterResult.partition`. -/
 namespace Ens.Assign
 
+deriving instance DecidableEq for Except
+
 /-- the slicing loop written with `take`/`drop` on the remaining list -/
 def splitBy {α} : List α → List Nat → List (List α)
   | _, [] => []
@@ -243,5 +245,59 @@ theorem sum_pos_of_not_allEqual (lens : List Nat) (h : allEqual lens = false) : 
     omega
   have : allEqual lens = true := (allEqual_iff lens).2 (fun x hx y hy => by rw [hall x hx, hall y hy])
   simp [this] at h
+
+/-- closed form of `partition` on consistent input -/
+theorem partition_eq {α β : Type} (a : List α) (d : List β) (ci : List Int) (lens : List Nat)
+    (hne : lens ≠ []) (ha : lens.sum = a.length) (hd : lens.sum = d.length) :
+    partition a d ci lens = .ok (
+      if allEqual lens then
+        ⟨.square (splitBy a lens), .square (splitBy d lens), partitionIndices ci lens⟩
+      else
+        ⟨.ragged a lens (splitBy a lens), .ragged d lens (splitBy d lens),
+         partitionIndices ci lens⟩) := by
+  have hpa := partitionList_ok a lens ha
+  have hpd := partitionList_ok d lens hd
+  cases lens with
+  | nil => exact absurd rfl hne
+  | cons l0 ls =>
+    simp only [partition]
+    generalize l0 :: ls = lens at *
+    by_cases hsq : allEqual lens = true
+    · simp only [hsq, if_true, hpa, hpd]
+    · have hpos := sum_pos_of_not_allEqual lens (by simpa using hsq)
+      have ha0 : ¬ a.length = 0 := by omega
+      have hd0 : ¬ d.length = 0 := by omega
+      simp only [hsq, raggedArray, ha0, hd0, if_false, hpa, hpd]
+      simp
+
+/-- `partition` fails on inconsistent input -/
+theorem partition_err {α β : Type} (a : List α) (d : List β) (ci : List Int) (lens : List Nat)
+    (h : lens = [] ∨ lens.sum ≠ a.length ∨ lens.sum ≠ d.length) :
+    ∃ e, partition a d ci lens = .error e := by
+  cases lens with
+  | nil => exact ⟨_, rfl⟩
+  | cons l0 ls =>
+    have h' : (l0 :: ls).sum ≠ a.length ∨ (l0 :: ls).sum ≠ d.length := by
+      rcases h with h | h
+      · simp at h
+      · exact h
+    clear h
+    simp only [partition]
+    generalize l0 :: ls = lens at *
+    by_cases ha : lens.sum = a.length
+    · have hd : lens.sum ≠ d.length := by
+        rcases h' with h | h
+        · exact absurd ha h
+        · exact h
+      have hpa := partitionList_ok a lens ha
+      have hpd := partitionList_err d lens hd
+      by_cases hsq : allEqual lens = true
+      · simp only [hsq, if_true, hpa, hpd]; exact ⟨_, rfl⟩
+      · by_cases ha0 : a.length = 0 <;> by_cases hd0 : d.length = 0 <;>
+          simp [hsq, raggedArray, ha0, hd0, hpa, hpd]
+    · have hpa := partitionList_err a lens ha
+      by_cases hsq : allEqual lens = true
+      · simp only [hsq, if_true, hpa]; exact ⟨_, rfl⟩
+      · by_cases ha0 : a.length = 0 <;> simp [hsq, raggedArray, ha0, hpa]
 
 end Ens.Assign
